@@ -82,7 +82,12 @@ def grids():
     G["barycenter_spring_layout"] = [((_H(),), {})]
     G["weighted_barycenter_spring_layout"] = [((_H(),), {})]
     G["bipartite_spring_layout"] = [((_H(),), {})]
-    G["spectral_clustering"] = [((_H2(),), {"k": 2}), ((_H2(),), {"k": 3}), ((_H3(),), {"k": 3})]
+    import xgi
+
+    star = xgi.Hypergraph([[0, i] for i in range(1, 8)])  # degenerate spectrum: the eigensolver restarts
+    chain = xgi.Hypergraph([["a", "b", "c"], ["c", "d", "e"], ["e", "f", "g"], ["g", "h", "i", "j"]])  # equivalent nodes
+    G["spectral_clustering"] = [((_H2(),), {"k": 2}), ((_H2(),), {"k": 3}), ((_H3(),), {"k": 3}), ((star,), {"k": 4}),
+                                ((star,), {"k": 5}), ((chain,), {"k": 4}), ((chain,), {"k": 3})]
     return G
 
 
@@ -212,7 +217,7 @@ def run(tier, ev):
     if env.seed() not in seeds:
         seeds.append(env.seed() % (2 ** 32))
     if tier == "quick":
-        seeds = [0, 42, 2 ** 31 - 1] + ([env.seed() % (2 ** 32)] if env.seed() not in (0, 42, 2 ** 31 - 1) else [])
+        seeds = [0, 1, 42, 2 ** 31 - 1] + ([env.seed() % (2 ** 32)] if env.seed() not in (0, 1, 42, 2 ** 31 - 1) else [])
     items = []
     for f in fns:
         if f not in G:
